@@ -58,6 +58,8 @@ SEARCH_ONLY = [
 ]
 
 TINY = 1e-250        # absolute floor of the kernel comparisons (values in the denormal range)
+NEAR_DUP_SIG = ("C08:near-duplicate-abscissa: sequential run lags algorithm_4 at equal evaluation counts because shared "
+                "abscissae are recomputed (1 ulp off an evaluated one) and evaluated again")
 FIXED_ZERO_STRETCH = [
     ("zgauss", {"a": 0.0, "b": 1.0, "x0": 0.2, "s": 0.01}),
     ("zgauss", {"a": 0.0, "b": 2.0, "x0": 0.2, "s": 0.01}),
@@ -194,41 +196,92 @@ def task_reference(t):
         return {"status": "internal"}
     if lst == "divergent" and not mem.divergent:
         return {"status": "learner_divergent", "evaluations": len(traj)}
-    by = {}
+    by_n = {n: (d, ig, er, dn) for (n, d, ig, er, dn) in traj}          # literal: same number of evaluations
+    by_distinct = {}                                                     # aligned on distinct abscissae
     for (n, d, ig, er, dn) in traj:
-        by[n - d] = (n, d, ig, er, dn)
-    res = {"status": "ok", "zero_refined": zero_refined, "done_compared": 0, "done_agree": 0, "done_mismatch": None, "ref_status": rst, "learner_status": lst, "states": 0, "literal": 0, "aligned_dup": 0,
-           "repo_ok": 0, "tight_ok": 0, "dup_agree": 0, "mismatch": None, "worst_rel": 0.0,
+        by_distinct[n - d] = (n, d, ig, er, dn)
+    dup_pairs = getattr(_L, "c08_dup_pairs", [])
+    res = {"status": "ok", "zero_refined": zero_refined, "ref_status": rst, "learner_status": lst,
+           "literal": 0, "repo_ok": 0, "tight_ok": 0, "done_agree": 0, "worst_rel": 0.0,
+           "near_dup_states": 0, "near_dup": None, "unattributed_skipped": 0, "mismatch": None, "done_mismatch": None,
+           "duplicates_asked": len(dup_pairs),
            "divergent_ref": rst == "divergent", "divergent_learner": lst == "divergent"}
-    for k, (nr, ig, er, niv) in enumerate(ref, 1):
-        if er is None or nr not in by:
-            break
-        if niv > 150:              # algorithm_4 drops intervals above 200, the learner above 1000
-            break
-        n, d, lig, ler, ldone = by[nr]
-        res["states"] += 1
-        ref_done = rst == "finished" and k == len(ref)
-        if d == 0:
-            res["done_compared"] += 1
-            res["done_agree"] += ldone == ref_done
-            if ldone != ref_done and res["done_mismatch"] is None:
-                res["done_mismatch"] = {"loop": k, "evaluations": nr, "reference_returned": ref_done, "learner_done": ldone,
-                                        "igral": lig, "err": ler}
+
+    def agree(lig, ler, ig, er):
         big = max(1.0, abs(ig), abs(er))
         repo = abs(lig - ig) < 1.5e-7 * big and abs(ler - er) < 1.5e-7 * big      # the repo's 7 decimals, scaled
         sc = max(abs(ig), abs(er), 1e-300)
         rel = max(abs(lig - ig) / sc, abs(ler - er) / sc)
-        tight = rel <= 1e-12
-        if d == 0:
-            res["literal"] += 1
-            res["repo_ok"] += repo
-            res["tight_ok"] += tight
-            res["worst_rel"] = max(res["worst_rel"], rel if math.isfinite(rel) else math.inf)
-            if not repo and res["mismatch"] is None:
-                res["mismatch"] = {"loop": k, "evaluations": nr, "ref_igral": ig, "igral": lig, "ref_err": er, "err": ler}
-        else:
-            res["aligned_dup"] += 1
-            res["dup_agree"] += repo
+        return repo, (rel if math.isfinite(rel) else math.inf)
+
+    snapped = {}
+
+    def snapped_state(nr):
+        """the state with nr distinct abscissae of a run in which a near-duplicate abscissa is answered with
+        the value of its already evaluated neighbour"""
+        if not snapped:
+            try:
+                tr, _st, _L2 = _with_deadline(lambda: I.learner_trajectory(mem, tol, nref, 4 * nref + 100, snap=True), 25.0)
+            except (RunTimeout, Exception):  # noqa: BLE001
+                tr = []
+            snapped[-1] = None
+            for (n, d, ig, er, dn) in tr:
+                snapped[n - d] = (n, d, ig, er, dn)
+        return snapped.get(nr)
+
+    for k, (nr, ig, er, niv) in enumerate(ref, 1):
+        if er is None or nr not in by_n:
+            break
+        if niv > 150:              # algorithm_4 drops intervals above 200, the learner above 1000
+            break
+        d, lig, ler, ldone = by_n[nr]
+        ref_done = rst == "finished" and k == len(ref)
+        res["literal"] += 1
+        repo, rel = agree(lig, ler, ig, er)
+        if repo and ldone == ref_done:
+            res["repo_ok"] += 1
+            res["done_agree"] += 1
+            res["tight_ok"] += rel <= 1e-12
+            res["worst_rel"] = max(res["worst_rel"], rel)
+            continue
+        # the literal comparison fails at this state: is it the near-duplicate lag?
+        # (the near-duplicate may still sit in the batch the learner is working on: it is on the stack
+        # since the batch was opened, and is asked before the state with nr distinct abscissae is reached)
+        al = by_distinct.get(nr)
+        if al is not None and al[1] > 0:
+            n2, d2, aig, aer, adone = al
+            arepo, _arel = agree(aig, aer, ig, er)
+            variant = "lag"
+            if not (arepo and adone == ref_done):
+                # the integrand may differ between the two abscissae (a singular point 1 ulp away): the
+                # mismatch is explained by the near-duplicates iff it disappears when they are answered
+                # with the neighbour's value
+                sn = snapped_state(nr)
+                if sn is not None and sn[1] > 0:
+                    n2, d2, aig, aer, adone = sn
+                    arepo, _arel = agree(aig, aer, ig, er)
+                    variant = "lag and a different integrand value at the near-duplicate"
+            if arepo and adone == ref_done:
+                res["near_dup_states"] += 1
+                res["near_dup_value_variant_states"] = res.get("near_dup_value_variant_states", 0) + (variant != "lag")
+                if res["near_dup"] is None:
+                    pair = [q for q in dup_pairs if q[0] <= n2][-1]
+                    res["near_dup"] = {"variant": variant, "f_at_duplicate": pair[3] if len(pair) > 3 else None,
+                                       "f_at_evaluated": pair[4] if len(pair) > 4 else None, "loop": k, "evaluations": nr, "ref_igral": ig, "ref_err": er, "igral": lig, "err": ler,
+                                       "learner_done": ldone, "reference_returned": ref_done,
+                                       "duplicate": {"evaluation": pair[0], "asked": pair[1], "already_evaluated": pair[2]},
+                                       "duplicates_so_far": d2, "aligned_evaluations": n2, "aligned_igral": aig, "aligned_err": aer}
+                continue
+        if al is None and dup_pairs:   # the learner stopped before the aligned state: cannot attribute, not judged
+            res["unattributed_skipped"] += 1
+            break
+        if not repo:
+            if res["mismatch"] is None:
+                res["mismatch"] = {"loop": k, "evaluations": nr, "ref_igral": ig, "igral": lig, "ref_err": er, "err": ler,
+                                   "duplicates_so_far": d}
+        elif res["done_mismatch"] is None:
+            res["done_mismatch"] = {"loop": k, "evaluations": nr, "reference_returned": ref_done, "learner_done": ldone,
+                                    "igral": lig, "err": ler}
     return res
 
 
@@ -614,19 +667,30 @@ def run(chk: Check) -> int:
             tol = 10.0 ** rng.uniform(-10, -3)
             rtasks.append((fam, params, tol, loops))
             rmetas.append((fam, params, tol))
-    ref = {"members": 0, "states_compared_literal": 0, "agree_repo_tolerance": 0, "agree_rel_1e-12": 0,
-           "states_with_duplicate_endpoint_evaluations": 0, "of_which_agree": 0, "timeouts": 0, "worst_rel_literal": 0.0,
+    ref = {"members": 0, "states_compared_literal": 0, "agree_repo_tolerance_and_termination": 0, "agree_rel_1e-12": 0,
+           "worst_rel_of_agreeing": 0.0, "timeouts": 0, "internal_errors": 0,
+           "members_that_asked_a_near_duplicate_abscissa": 0,
+           "near_duplicate_lag_members": 0, "near_duplicate_lag_states": 0, "unattributed_not_judged": 0,
+           "members_with_refined_all_zero_interval": 0,
            "both_divergent": 0, "only_reference_divergent": 0, "only_learner_divergent": 0}
-    # fixed members with an exactly-zero stretch on simple ranges (every run, every seed): an all-zero
-    # interval is the boundary case c_diff == hint * norm(c) == 0 of the forced-split test
+    # corpus reference cases first (the minimal near-duplicate witness), then fixed members with an
+    # exactly-zero stretch on simple ranges (every run, every seed): an all-zero interval is the
+    # boundary case c_diff == hint * norm(c) == 0 of the forced-split test
+    pre_t, pre_m = [], []
+    for f in sorted(CORPUS.glob("*.json")):
+        d = json.loads(f.read_text())
+        if d.get("kind") == "reference":
+            pre_t.append((d["family"], d["params"], d["tol"], d.get("loops", loops)))
+            pre_m.append((d["family"], d["params"], d["tol"]))
+            chk.note_case(("corpus", f.name), True)
     for fam, params in FIXED_ZERO_STRETCH:
         for tol in (1e-3, 1e-5, 1e-7):
-            rtasks.append((fam, params, tol, max(loops, 40)))
-            rmetas.append((fam, params, tol))
+            pre_t.append((fam, params, tol, max(loops, 40)))
+            pre_m.append((fam, params, tol))
+    rtasks, rmetas = pre_t + rtasks, pre_m + rmetas
     with cf.ProcessPoolExecutor(max_workers=14, mp_context=ctx) as ex:
         rres = list(ex.map(task_reference, rtasks, chunksize=2))
-    ref.update(done_compared=0, done_agree=0, internal_errors=0, members_with_refined_all_zero_interval=0)
-    for (fam, params, tol), r in zip(rmetas, rres):
+    for (fam, params, tol, lps), r in zip(rtasks, rres):
         if r["status"] != "ok":
             ref["timeouts"] += r["status"] == "timeout"
             ref["internal_errors"] += r["status"] == "internal"
@@ -635,37 +699,42 @@ def run(chk: Check) -> int:
                 if sig not in first_fail:
                     first_fail[sig] = (fam, params, tol, "seq1", {"verdict": "divergent", "n": r["evaluations"], "ops": None})
             continue
-        ref["members_with_refined_all_zero_interval"] += bool(r["zero_refined"])
-        ref["done_compared"] += r["done_compared"]
-        ref["done_agree"] += r["done_agree"]
         ref["members"] += 1
+        ref["members_with_refined_all_zero_interval"] += bool(r["zero_refined"])
         ref["states_compared_literal"] += r["literal"]
-        ref["agree_repo_tolerance"] += r["repo_ok"]
+        ref["agree_repo_tolerance_and_termination"] += r["repo_ok"]
         ref["agree_rel_1e-12"] += r["tight_ok"]
-        ref["states_with_duplicate_endpoint_evaluations"] += r["aligned_dup"]
-        ref["of_which_agree"] += r["dup_agree"]
-        ref["worst_rel_literal"] = max(ref["worst_rel_literal"], r["worst_rel"])
+        ref["worst_rel_of_agreeing"] = max(ref["worst_rel_of_agreeing"], r["worst_rel"])
+        ref["members_that_asked_a_near_duplicate_abscissa"] += bool(r["duplicates_asked"])
+        ref["near_duplicate_lag_members"] += bool(r["near_dup_states"])
+        ref["near_duplicate_lag_states"] += r["near_dup_states"]
+        ref["of_which_integrand_differs_at_the_duplicate"] = (ref.get("of_which_integrand_differs_at_the_duplicate", 0)
+                                                              + r.get("near_dup_value_variant_states", 0))
+        ref["unattributed_not_judged"] += r["unattributed_skipped"]
         ref["both_divergent"] += r["divergent_ref"] and r["divergent_learner"]
         ref["only_reference_divergent"] += r["divergent_ref"] and not r["divergent_learner"]
         ref["only_learner_divergent"] += r["divergent_learner"] and not r["divergent_ref"]
         chk.note_case(("ref", fam, json.dumps(params, sort_keys=True), tol), r["literal"] >= 3)
+        if r["near_dup"] and NEAR_DUP_SIG not in first_fail:
+            first_fail[NEAR_DUP_SIG] = (fam, params, tol, "reference", {"what": r["near_dup"], "kind": "near_dup", "loops": lps})
         if r["mismatch"]:
             sig = f"C08:algorithm_4:{fam}: igral/err differ from tests/algorithm_4.py at an equal number of evaluations"
             if sig not in first_fail:
                 m = r["mismatch"]
-                first_fail[sig] = (fam, params, tol, "reference", {"what": m, "kind": "reference", "loops": loops})
+                first_fail[sig] = (fam, params, tol, "reference", {"what": m, "kind": "reference", "loops": lps})
         if r["done_mismatch"]:
             sig = (f"C08:algorithm_4:{fam}: done() disagrees with the termination of tests/algorithm_4.py at an equal "
                    "number of evaluations")
             if sig not in first_fail:
                 first_fail[sig] = (fam, params, tol, "reference", {"what": r["done_mismatch"], "kind": "reference_done",
-                                                                    "loops": loops})
+                                                                    "loops": lps})
     chk.extra["reference_algorithm_4"] = ref
     if ref["states_compared_literal"] < 3 * len(rtasks) or ref["members_with_refined_all_zero_interval"] < 8:
         chk.broke("vacuity", "the comparison with tests/algorithm_4.py compared too few states (or met too few intervals on "
                   "which the integrand vanishes identically)", ref)
-    chk.log(f"reference: {ref['members']} members, {ref['states_compared_literal']} states compared, "
-            f"{ref['agree_repo_tolerance']} agree (repo tolerance), {ref['agree_rel_1e-12']} to 1e-12")
+    chk.log(f"reference: {ref['members']} members, {ref['states_compared_literal']} states compared at equal evaluation counts, "
+            f"{ref['agree_repo_tolerance_and_termination']} agree (repo tolerance + termination), {ref['agree_rel_1e-12']} to 1e-12, "
+            f"{ref['near_duplicate_lag_states']} lag by near-duplicate abscissae ({ref['near_duplicate_lag_members']} members)")
 
     # ---- 6. arithmetic kernel correspondence
     EK = I.ExactKernel()
@@ -704,7 +773,20 @@ def run(chk: Check) -> int:
 
     # ---- 7. report
     for sig, (fam, params, tol, mode, r) in first_fail.items():
-        if r.get("kind") == "reference_done":
+        if r.get("kind") == "near_dup":
+            m = r["what"]
+            dp = m["duplicate"]
+            chk.fail(sig, f"{fam} {params} tol={tol:.3g}, one point at a time ({m['variant']}): evaluation {dp['evaluation']} is at "
+                     f"abscissa {dp['asked']!r} (f = {m['f_at_duplicate']!r}) although {dp['already_evaluated']!r} "
+                     f"(f = {m['f_at_evaluated']!r}) is already evaluated ({m['duplicates_so_far']} such "
+                     f"near-duplicates so far); after {m['evaluations']} evaluations (loop {m['loop']}) algorithm_4 has "
+                     f"igral={m['ref_igral']!r} err={m['ref_err']!r} (returned: {m['reference_returned']}), the learner "
+                     f"igral={m['igral']!r} err={m['err']!r} (done: {m['learner_done']}); after {m['aligned_evaluations']} "
+                     f"evaluations, i.e. the same number of distinct abscissae"
+                     f"{' and with the near-duplicates answered by the value of their evaluated neighbour' if m['variant'] != 'lag' else ''}"
+                     f", it has igral={m['aligned_igral']!r} err={m['aligned_err']!r}",
+                     {"kind": "reference", "family": fam, "params": params, "tol": tol, "loops": r["loops"]})
+        elif r.get("kind") == "reference_done":
             m = r["what"]
             chk.fail(sig, f"{fam} {params} tol={tol:.3g}: after {m['evaluations']} evaluations (loop {m['loop']}) algorithm_4 "
                      f"{'returned' if m['reference_returned'] else 'continues'} but learner.done() is {m['learner_done']} "
@@ -752,8 +834,10 @@ def run(chk: Check) -> int:
                      "and, when present, the theorems about the exported constants",
                      "runs that raise AssertionError/KeyError/IndexError inside IntegratorLearner (C07, DESIGN 9 F1) or do not "
                      "return within 10 s are counted and skipped, not judged",
-                     "comparison with algorithm_4 is literal (same number of evaluations) on runs where the learner evaluated no "
-                     "abscissa twice up to rounding; states reached after such duplicate end-point evaluations are only counted"])
+                     "comparison with algorithm_4 is literal (same number of evaluations) for every sequential run; a literal "
+                     "mismatch is attributed to the near-duplicate-abscissa finding only if the run has asked an abscissa within "
+                     "4 ulp of an evaluated one AND the state with the same number of DISTINCT abscissae agrees with the reference "
+                     "(value, error, termination); every other mismatch is a failure"])
 
 
 def replay(doc) -> int:
@@ -776,8 +860,9 @@ def replay(doc) -> int:
             bad += bool(res["verdict"])
         elif kind == "reference":
             res = task_reference((r["family"], r["params"], r["tol"], r["loops"]))
-            print("replayed reference comparison", r["family"], r["params"], "->", res.get("mismatch"), res.get("done_mismatch"))
-            bad += bool(res.get("mismatch") or res.get("done_mismatch"))
+            print("replayed reference comparison", r["family"], r["params"], "->", res.get("mismatch"), res.get("done_mismatch"),
+                  res.get("near_dup"))
+            bad += bool(res.get("mismatch") or res.get("done_mismatch") or res.get("near_dup"))
         elif kind == "poly33":
             mem = I.build("poly", r["params"])
             L = I.run_sequential(mem, 1e-8, 33)
